@@ -97,8 +97,13 @@ package rtpmpeg1audio
 // The partial frame never exceeds two packets' worth of bytes: a continuation is accepted
 // only at the offset already received (a 16-bit field) and dropped as soon as more than the
 // announced frame length has arrived.
+//@ ufun sumlen(s [][]byte, n int) int = ite(n <= 0, 0, sumlen(s, n-1) + len(s[n-1]))
+//@   lemma[n; t [][]byte] (forall k :: 0 <= k && k < n ==> len(s[k]) == len(t[k])) ==> sumlen(s, n) == sumlen(t, n)
+//@   trigger sumlen(s, n)
+//@   trigger sumlen(t, n)
 //@ typeinv Decoder d
 //@   inv[C08] 0 <= d.fragmentsSize && d.fragmentsSize <= 131070
+//@   inv[C08] d.fragmentsSize == sumlen(d.fragments, len(d.fragments))
 
 //@ func joinFragments
 //@   opt safety-tag=C08
